@@ -235,6 +235,10 @@ func (r *Run) check(only, dump string) int {
 	var toSolve []*Obligation
 	for _, o := range all {
 		if o.Answer == "" {
+			// an obligation recorded as a known finding is tried once, briefly: it is expected not to discharge
+			if matchFinding(r.Findings, r.Prop, o.Name) != nil {
+				o.NoRetry = true
+			}
 			toSolve = append(toSolve, o)
 		}
 	}
@@ -274,6 +278,7 @@ func (r *Run) report(all []*Obligation, unbound, engErrs []string) int {
 	var undischarged []string
 	var broken []string
 	known := 0
+	var knownNames []string
 	sort.SliceStable(all, func(i, j int) bool { return all[i].Name < all[j].Name })
 	seen := map[string]int{}
 	for _, o := range all {
@@ -322,6 +327,10 @@ func (r *Run) report(all []*Obligation, unbound, engErrs []string) int {
 		// refuted or undischarged
 		if f := matchFinding(r.Findings, r.Prop, o.Name); f != nil {
 			known++
+			// a recorded finding is reported on its own line and is not part of what this run claims to have proved
+			obligations--
+			byClass[o.Class]--
+			knownNames = append(knownNames, o.Name+": "+f.What)
 			fmt.Printf("KNOWN-FINDING: property=%s obligation=%s %s\n", r.Prop, o.Name, f.What)
 			samples = append(samples, sample{o.Name, o.Class, o.Answer + " (known finding)", o.Backend, o.Ms, o.Bytes, o.Pos, o.Text})
 			continue
@@ -418,6 +427,7 @@ func (r *Run) report(all []*Obligation, unbound, engErrs []string) int {
 			"engine_errors":            engErrs,
 			"undischarged":             undischarged,
 			"known_findings":           known,
+			"known_finding_obligations": knownNames,
 			"bounded":                  r.Bounded,
 			"notes":                    r.Notes,
 			"samples":                  samples,
